@@ -371,6 +371,8 @@ def build_request(ex, meta):
             r["slice_tail"] = o["slice_tail"].replace("~", " ")
     if o.get("slice_opt_return") == "1":
         r["slice_opt_return"] = True
+    if o.get("slice_wrap_return") == "1":
+        r["slice_wrap_return"] = True
     if o.get("opaque_into") == "1":
         r["opaque_into"] = True
     if "slice_group" in o:
